@@ -16,6 +16,16 @@ sys.path.insert(0, os.path.dirname(os.path.abspath(__file__)))
 from rs2v_parse import RsError          # noqa: E402
 from rs2v_tr import Program, translate_fn   # noqa: E402
 
+# shared helpers of bid_internal.rs with an exactness theorem of their own (group H; gen_help_proofs.py)
+HELPERS = [
+    '__add_carry_out', '__add_carry_in_out', '__sub_borrow_out', '__sub_borrow_in_out', '__add_128_64',
+    '__add_128_128', '__sub_128_64', '__sub_128_128', '__mul_64x64_to_64', '__mul_64x64_to_128',
+    '__mul_64x64_to_128_full', '__mul_64x64_to_128MACH', '__mul_64x64_to_128HIGH', '__mul_64x64_to_128_fast',
+    '__mul_64x128_full', '__mul_64x128_to_192', '__mul_64x128_to192', '__mul_64x128_to_256', '__mul_64x128_low',
+    '__mul_64x128_to_128', '__mul_64x128_short', '__mul_128x64_to_128', '__mul_64x192_to_256', '__mul_128x128_to_256',
+    '__mul_128x128_low', '__mul_128x128_full', '__mul_128x128_high', '__sqr128_to_256', '__shr_128', '__shr_128_long',
+    '__shl_128_long', '__unsigned_compare_gt_128', '__unsigned_compare_ge_128', '__test_equal_128',
+]
 GROUPS = {
     'A': [('bid128_noncomp.rs', n) for n in (
         'bid128_is_signed', 'bid128_is_nan', 'bid128_is_inf', 'bid128_is_signaling', 'bid128_is_finite', 'bid128_is_zero',
@@ -29,6 +39,9 @@ GROUPS = {
     'D': [('bid128_noncomp.rs', 'bid128_total_order'), ('bid128_noncomp.rs', 'bid128_total_order_mag'),
           ('bid128_scalbln.rs', 'bid128_scalbln')],
     'E': [('bid_dpd.rs', 'bid_to_dpd128'), ('bid_dpd.rs', 'bid_dpd_to_bid128')],
+    # T: the two total-order routines alone (C18 does not need the pack routine that the concrete bid128_scalbln of group D pulls in)
+    'T': [('bid128_noncomp.rs', 'bid128_total_order'), ('bid128_noncomp.rs', 'bid128_total_order_mag')],
+    'F': [('bid_internal.rs', 'bid_get_BID128'), ('bid128_scalbn.rs', 'bid128_scalbn'), ('bid128_ldexp.rs', 'bid128_ldexp')],
     # G: comparison predicates (Impl/ImplCmp.v, Impl/ImplCmpProofs.v). The three multiplication helpers are requested by name so
     # that ImplMul.v / ImplCmp.v find them in ImplGen.v whichever comparison routines translate. bid128_quiet_equal and
     # bid128_quiet_not_equal are not listed: they call the generic fn swap<T> (outside the subset).
@@ -39,10 +52,23 @@ GROUPS = {
         'bid128_quiet_ordered', 'bid128_quiet_unordered', 'bid128_signaling_greater', 'bid128_signaling_greater_equal',
         'bid128_signaling_greater_unordered', 'bid128_signaling_less', 'bid128_signaling_less_equal',
         'bid128_signaling_less_unordered', 'bid128_signaling_not_greater', 'bid128_signaling_not_less')],
+    # H: the shared multi-word helpers of bid_internal.rs on their own (Impl/ImplHelpProofs.v: "helper <name> is exact")
+    'H': [('bid_internal.rs', n) for n in HELPERS],
 }
+# helper functions translated in addition to the routines of a group (after them, so that the text generated for the
+# routines does not move): the shared lemma files ImplMul0.v / ImplDpd.v, which the files about the pack routines import,
+# mention these three helpers
+_PACK_SUPPORT = [('bid_internal.rs', '__mul_64x128_full'), ('bid_internal.rs', '__mul_128x128_high'),
+                 ('bid_internal.rs', '__sub_128_128')]
+GROUP_SUPPORT = {'D': _PACK_SUPPORT, 'F': _PACK_SUPPORT, 'H': _PACK_SUPPORT}
+# literal fuel bounds of the loops: (function, index of the loop in the function, counted from 1) -> iterations + 1.
+# bid_get_BID128: the padding loop multiplies a coefficient below 10^33 by ten while it stays below 10^33: at most 33 times
+# for a non-zero coefficient; for coefficient 0 it runs once per unit of exponent excess, which the guard before the loop
+# limits to 34 (expon - 34 <= 12287). bid128_scalbn / bid128_ldexp: the same padding as a do-while: at most 33 times.
+FUEL = {('bid_get_BID128', 1): 36, ('bid128_scalbn', 1): 36, ('bid128_ldexp', 1): 36}
 # functions that are not translated but modelled as abstract function parameters of their callers (name -> file)
-ABSTRACT = {'bid128_scalbn': 'bid128_scalbn.rs'}
-SUPPORT_FILES = ['bid_internal.rs', 'd128.rs', 'bid128.rs', 'bid_b2d.rs']
+ABSTRACT = {}
+SUPPORT_FILES = ['bid_internal.rs', 'd128.rs', 'bid128.rs', 'bid_b2d.rs', 'bid_decimal_data.rs', 'bid128_scalbn.rs']
 
 PRELUDE = '''(* GENERATED by rs2v.py -- do not edit. Regenerated from the Rust sources on every run.
 %s
@@ -89,10 +115,12 @@ def main(argv):
     ap.add_argument('--fn', action='append', default=[], help='file.rs:function (repeatable; overrides --groups)')
     ap.add_argument('--abstract', action='append', default=[], help='file.rs:function modelled as an abstract function parameter '
                     '(repeatable; default: %s)' % ', '.join('%s:%s' % (f, n) for n, f in ABSTRACT.items()))
+    ap.add_argument('--fuel', action='append', default=[], help='function:loopindex=N literal fuel bound of a loop (repeatable)')
     ap.add_argument('--keep-going', action='store_true',
                     help='translate each requested function independently; failures are reported (exit status 2) and the '
                          'functions that translate are still written')
     args = ap.parse_args(argv)
+    support = []
     if args.fn:
         wanted = [tuple(x.split(':', 1)) for x in args.fn]
     else:
@@ -103,7 +131,8 @@ def main(argv):
                 if g not in GROUPS:
                     print('rs2v: unknown group %s' % g, file=sys.stderr)
                     return 1
-                wanted += GROUPS[g]
+                wanted += [w for w in GROUPS[g] if w not in wanted]
+                support += [w for w in GROUP_SUPPORT.get(g, []) if w not in support]
     files = list(SUPPORT_FILES)
     for f, _ in wanted:
         if f not in files:
@@ -124,7 +153,14 @@ def main(argv):
         print(str(ex), file=sys.stderr)
         return 1
     prog.abstract_names = set(abstract)
-    for f, name in wanted:
+    prog.fuel = dict(FUEL)
+    for x in args.fuel:
+        k, v = x.split('=', 1)
+        fn_, idx_ = k.rsplit(':', 1)
+        prog.fuel[(fn_, int(idx_))] = int(v)
+    support = [w for w in support if w not in wanted]
+    for f, name in wanted + support:
+        is_support = (f, name) in support
         path = os.path.join(args.src, f)
         sf = [s for s in prog.files if s.path == path][0]
         snapshot = (list(prog.out_defs), list(prog.header), dict(prog.fn_done), dict(prog.tables), set(prog.used_gnames))
@@ -137,7 +173,7 @@ def main(argv):
             if not isinstance(ex, RsError):
                 ex = RsError('rs2v: internal error while translating %s: %s: %s' % (name, type(ex).__name__, ex))
             errors.append((name, str(ex)))
-            print('FAILED %s: %s' % (name, ex), file=sys.stderr)
+            print('%s %s: %s' % ('FAILED-SUPPORT' if is_support else 'FAILED', name, ex), file=sys.stderr)
             prog.out_defs, prog.header, prog.fn_done, prog.tables, prog.used_gnames = snapshot
             prog.fn_stack = []
             if not args.keep_going:
